@@ -115,10 +115,14 @@ def renderTrace : List String → List (Ev × List Obs × St) → List String
     if s.halted.isSome then [evToken e name obs s] else evToken e name obs s :: renderTrace names' r
 
 def parseLayout : String → Option Layout
-  | "pinned" => some ⟨false, false⟩
-  | "ctorfix" => some ⟨true, false⟩
-  | "regfix" => some ⟨false, true⟩
-  | "fixed" => some ⟨true, true⟩
+  | "pinned" => some ⟨false, false, false⟩
+  | "ctorfix" => some ⟨true, false, false⟩
+  | "regfix" => some ⟨false, true, false⟩
+  | "fixed" => some ⟨true, true, false⟩
+  | "pinned+dtor" => some ⟨false, false, true⟩
+  | "ctorfix+dtor" => some ⟨true, false, true⟩
+  | "regfix+dtor" => some ⟨false, true, true⟩
+  | "fixed+dtor" => some ⟨true, true, true⟩
   | _ => none
 
 def handleLine (L : Layout) (line : String) : String :=
